@@ -40,7 +40,7 @@ def targets():
         "armv7m": ("ascon-asm-armv7m.S", ["__ARM_ARCH_ISA_THUMB=2", "__ARM_ARCH=7"], lambda t: emu.Arm(t), L32),
         "armv8a": ("ascon-asm-armv8a-64.S", ["__ARM_ARCH_8A", "__ARM_ARCH_ISA_A64"], lambda t: emu.A64(t), L64),
         "m68k": ("ascon-asm-m68k.S", ["__m68k__"], lambda t: emu.M68k(t), B32),
-        "m68k-coldfire": ("ascon-asm-m68k.S", ["__m68k__", "__mcoldfire__"], lambda t: emu.M68k(t), B32),
+        "m68k-coldfire": ("ascon-asm-m68k.S", ["__m68k__", "__mcoldfire__"], lambda t: emu.M68k(t, coldfire=True), B32),
         "xtensa-call0": ("ascon-asm-xtensa.S", ["__XTENSA__"], lambda t: emu.Xtensa(t), L64),
         "xtensa-windowed": ("ascon-asm-xtensa.S", ["__XTENSA__", "__XTENSA_WINDOWED_ABI__"], lambda t: emu.Xtensa(t), L64),
         "avr5": ("ascon-asm-avr5.S", ["__AVR__", "__AVR_ARCH__=5"], lambda t: emu.Avr(t), RAW),
